@@ -224,7 +224,8 @@ PROPS = {
     },
     "C04": {
         "proof_modules": ["GrolProofs.Props.C04"],
-        "theorems": ["Grol.E.C04.off_get", "Grol.E.C04.off_set"],
+        "theorems": ["Grol.E.C04.off_get", "Grol.E.C04.off_set", "Grol.E.C04.replay", "Grol.E.C04.store_condition",
+                     "Grol.E.C04.set_get", "Grol.E.C04.get_pure"],
         "suites": [["eval", "C04"]],
         "rule": EVAL_RULE + " C04 statement: per input, output/value/error/panic are identical with the cache on and off (both register settings).",
         "trusted_base": EVAL_TB,
@@ -240,8 +241,13 @@ PROPS = {
         "assumptions": EVAL_ASSUME,
     },
     "C07": {
-        "proof_modules": ["GrolProofs.Props.C07"],
-        "theorems": ["Grol.E.C07.integer_ops_no_panic", "Grol.E.evalIntegerInfix_no_panic", "Grol.E.bind_no_panic", "Grol.E.outcome_bind"],
+        "proof_modules": ["GrolProofs.Props.C07", "GrolProofs.EvalInv", "GrolProofs.EvalSafeVal", "GrolProofs.EvalSafeEnv",
+                          "GrolProofs.EvalSafeOps", "GrolProofs.EvalSafeHelpers", "GrolProofs.EvalSafeMain"],
+        "theorems": ["Grol.E.C07.statement", "Grol.E.C07.holds", "Grol.E.C07.inv_init", "Grol.E.C07.inv_preserved",
+                     "Grol.E.C07.inv_runInput", "Grol.E.C07.reachable_inv", "Grol.E.C07.frames_grow", "Grol.E.C07.result_scoped",
+                     "Grol.E.spec_all", "Grol.E.post_valueOf", "Grol.E.post_envGet", "Grol.E.post_makeRef", "Grol.E.post_createOrSet",
+                     "Grol.E.post_envDelete", "Grol.E.post_extendFunctionEnv", "Grol.E.cmp_npr", "Grol.E.inspect_npr",
+                     "Grol.E.C07.integer_ops_no_panic", "Grol.E.evalIntegerInfix_no_panic", "Grol.E.bind_no_panic", "Grol.E.outcome_bind"],
         "suites": [["eval", "C07"]],
         "rule": EVAL_RULE + " C07 stream: operands are ill-typed with probability 4% per node, shift counts and divisors unguarded. "
                 "C07 statement: no Go panic (other than the depth/memory guards) in any of the four configurations.",
